@@ -51,14 +51,51 @@ func deferOf(fn *ssa.Function, pred func(*ssa.Defer) bool) *ssa.Defer {
 	return out
 }
 
+// deferredCall: a `defer recv.M()` in fn whose callee is `callee` and whose receiver (or first argument) satisfies ok —
+// written directly, or as a deferred function literal that makes that call on every path through it (there the receiver
+// is a captured variable and reads outer(…)).
+func deferredCall(c *Ctx, fn *ssa.Function, callee string, ok func(recv string) bool) *ssa.Defer {
+	recvOf := func(cc *ssa.CallCommon) string {
+		if cc.IsInvoke() {
+			return c.Expr(cc.Value)
+		}
+		if len(cc.Args) > 0 {
+			return c.Expr(cc.Args[0])
+		}
+		return ""
+	}
+	return deferOf(fn, func(d *ssa.Defer) bool {
+		if calleeName(&d.Call) == callee && ok(recvOf(&d.Call)) {
+			return true
+		}
+		D := staticCallee(&d.Call)
+		if D == nil || D.Parent() != fn || len(D.Blocks) == 0 {
+			return false
+		}
+		is := func(j ssa.Instruction) bool {
+			cc := callOf(j)
+			if cc == nil || calleeName(cc) != callee {
+				return false
+			}
+			rv := recvOf(cc)
+			return strings.HasPrefix(rv, "outer(") && strings.HasSuffix(rv, ")") && ok(rv[len("outer("):len(rv)-1])
+		}
+		n := 0
+		eachInstr(D, func(j ssa.Instruction) {
+			if is(j) {
+				n++
+			}
+		})
+		return n > 0 && c.escapePath(D, nil, is, isReturn) == nil
+	})
+}
+
 func c11r1(r *R) {
 	c := r.C
 	serve, _, sc := serveLoop(r)
 	// serveConn: defer conn.Close() before anything that can block or fail
 	o := r.Ob("C11.R1", "defer-close-conn:"+funcName(sc)).At(sc.Pos())
-	d := deferOf(sc, func(d *ssa.Defer) bool {
-		return calleeName(&d.Call) == "(net.Conn).Close" && c.Expr(d.Call.Value) == "p1"
-	})
+	d := deferredCall(c, sc, "(net.Conn).Close", func(rv string) bool { return rv == "p1" })
 	if o.Check(d != nil, "no `defer conn.Close()` on the accepted connection in %s", funcName(sc)) {
 		o.AtI(d)
 		o.Check(d.Block().Index == 0, "the deferred Close of the accepted connection is conditional")
@@ -72,9 +109,7 @@ func c11r1(r *R) {
 		}
 	}
 	o2 := r.Ob("C11.R1", "defer-close-tlsconn:"+funcName(sc))
-	d2 := deferOf(sc, func(d *ssa.Defer) bool {
-		return calleeName(&d.Call) == "(*crypto/tls.Conn).Close" && strings.HasPrefix(c.Expr(d.Call.Args[0]), "crypto/tls.Server(")
-	})
+	d2 := deferredCall(c, sc, "(*crypto/tls.Conn).Close", func(rv string) bool { return strings.HasPrefix(rv, "crypto/tls.Server(") })
 	if o2.Check(d2 != nil, "no `defer tlsConn.Close()` in %s", funcName(sc)) {
 		o2.AtI(d2)
 		for _, hs := range callsIn(sc, "(*proxyserver.Server).tlsHandshakeWithTimeout", "(*crypto/tls.Conn).HandshakeContext", "(*crypto/tls.Conn).Handshake") {
@@ -82,9 +117,7 @@ func c11r1(r *R) {
 		}
 	}
 	o3 := r.Ob("C11.R1", "defer-close-listener:"+funcName(serve)).At(serve.Pos())
-	d3 := deferOf(serve, func(d *ssa.Defer) bool {
-		return calleeName(&d.Call) == "(net.Listener).Close" && c.Expr(d.Call.Value) == "p1"
-	})
+	d3 := deferredCall(c, serve, "(net.Listener).Close", func(rv string) bool { return rv == "p1" })
 	if o3.Check(d3 != nil, "Serve does not defer ln.Close()") {
 		o3.AtI(d3).Check(d3.Block().Index == 0, "deferred listener Close is conditional")
 	}
